@@ -509,3 +509,13 @@ Qed.
 End WithOrder.
 
 End Bst.
+
+(* the comparator of the correspondence check (typ.Compare on int) satisfies the hypotheses *)
+Lemma zcompare_TotalOrderEq : TotalOrderEq Z.eqb zcompare.
+Proof.
+  split; unfold zcompare; intros.
+  - apply Z.eqb_eq.
+  - destruct (Z.gtb_spec a b), (Z.ltb_spec a b); lia.
+  - destruct (Z.gtb_spec a b), (Z.ltb_spec a b), (Z.gtb_spec b a), (Z.ltb_spec b a); lia.
+  - destruct (Z.gtb_spec a b), (Z.ltb_spec a b), (Z.gtb_spec b c), (Z.ltb_spec b c), (Z.gtb_spec a c), (Z.ltb_spec a c); lia.
+Qed.
